@@ -517,49 +517,7 @@ func propC03(w *World, r *Report) {
 		} else {
 			r.Fail("L3", "stop test evaluated after the write and the increment", w.InstrPos(ev.Instr), "the stop comparison is evaluated before the current frame was written/counted: "+describeCtx(bad), bad.Trace)
 		}
-		// taken exactly when written >= target
-		var badA, badB, badC *Ctx
-		nA := 0
-		for _, cx := range exitCtxs(runs.fault) {
-			if cx.Ghosts["wcur:motion"] == 1 {
-				out, present := cx.Dec[roles.StopLabel]
-				if !present {
-					if badC == nil {
-						badC = cx
-					}
-					continue
-				}
-				nA++
-				rel := relationOn(roles.StopLabel, roles.Written, out)
-				stopped := cx.Ghosts["stop:motion"] >= 1
-				switch rel {
-				case ">=":
-					if !stopped && badA == nil {
-						badA = cx
-					}
-				case "<":
-					if stopped && badB == nil {
-						badB = cx
-					}
-				default:
-					if badA == nil {
-						badA = cx
-					}
-				}
-			}
-		}
-		cl, _ := parseCmpLabel(roles.StopLabel)
-		detail := fmt.Sprintf("decision '%s' in %d exit contexts: stop iff written >= target", cl.Raw, nA)
-		switch {
-		case badA != nil:
-			r.Fail("L3", "stop taken exactly when written >= target", "-", "the comparison is not 'written >= target' (non-strict) or the stop is skipped when it holds: "+describeCtx(badA), badA.Trace)
-		case badB != nil:
-			r.Fail("L3", "stop taken exactly when written >= target", "-", "the recording is stopped although written < target: "+describeCtx(badB), badB.Trace)
-		case badC != nil:
-			r.Fail("L3", "stop taken exactly when written >= target", "-", "a frame call writes a frame to the recording without testing the stop target: "+describeCtx(badC), badC.Trace)
-		default:
-			r.Check(nA > 0, "L3", "stop taken exactly when written >= target", "-", detail)
-		}
+		checkStopTaken(w, r, runs, roles, "L3")
 	}
 	checkRecorderConfigValidation(w, r, e)
 	checkSettingsImmutable(w, r, "L1", "RecorderConfig:MinSecs|MaxSecs", "ThermalRecorder:MinSecs|MaxSecs", "Config:Recorder") // min-secs / max-secs reach the processor as configured
@@ -1746,3 +1704,104 @@ func checkRingSlotFilledByDeepCopy(w *World, r *Report, runs *motionRuns, rule s
 	}
 	r.Check(slots >= 2 && fills >= 2, rule, "ring slots obtained and filled in the processor (live path and ProcessFrame)", "-", fmt.Sprintf("%d slots, %d fills", slots, fills))
 }
+
+// checkDetectorSeesEveryFrame: every accepted frame (Process with a successful parse, ProcessFrame) is handed to the
+// detector exactly once, whatever else the call decides - the detector's state (previous-frame FFC flag, comparison
+// ring, background, threshold) is defined frame by frame; a frame it never sees (skipped as a duplicate, skipped while
+// the camera calibrates) shifts every later comparison. A rejected frame is never shown to it.
+func checkDetectorSeesEveryFrame(w *World, r *Report, rule string) {
+	runs, err := getMotionRuns(w)
+	if err != nil {
+		r.Unknown(rule, "motion.MotionProcessor", "-", "role resolution failed: "+err.Error())
+		return
+	}
+	n, nrej := 0, 0
+	var bad, badRej *Ctx
+	for _, ev := range runs.fault.sortedEvents() {
+		if ev.Kind != "exit" || (ev.Entry != "Process" && ev.Entry != "ProcessFrame") {
+			continue
+		}
+		for _, cx := range ev.Ctxs {
+			p, has := cx.Dec["parse"]
+			accepted := ev.Entry == "ProcessFrame" || (has && p == 1)
+			if accepted {
+				n++
+				if cx.Ghosts["detectCalls"] != 1 && bad == nil {
+					bad = cx
+				}
+			} else if has && p == 0 {
+				nrej++
+				if cx.Ghosts["detectCalls"] != 0 && badRej == nil {
+					badRej = cx
+				}
+			}
+		}
+	}
+	name := "every accepted frame is handed to the detector exactly once"
+	if bad != nil {
+		r.Fail(rule, name, "-", fmt.Sprintf("a frame call ends with Detect called %d times: %s", bad.Ghosts["detectCalls"], describeCtx(bad)), bad.Trace)
+	} else {
+		r.Check(n > 0, rule, name, "-", fmt.Sprintf("%d exit contexts over all failure placements", n))
+	}
+	if badRej != nil {
+		r.Fail(rule, "a rejected frame is never shown to the detector", "-", describeCtx(badRej), badRej.Trace)
+	} else {
+		r.Check(nrej > 0, rule, "a rejected frame is never shown to the detector", "-", fmt.Sprintf("%d exit contexts", nrej))
+	}
+	for _, ev := range eventsOfKind(runs.fault, "obs:detect", -1) {
+		r.Check(ev.Arg == "cur", rule, "the detector is shown the frame just parsed (the ring's current slot)", w.InstrPos(ev.Instr), ev.Arg)
+	}
+}
+
+// checkStopTaken: a frame call that writes the current frame to the motion recording tests the stop target, and the
+// recording is stopped exactly when written >= target (non-strict: a counter that a failure left above the target
+// still ends the recording).
+func checkStopTaken(w *World, r *Report, runs *motionRuns, roles *motionRoles, rule string) {
+	if roles.StopLabel == "" {
+		r.Fail(rule, "stop guard", "-", "no comparison between the written counter and the stop target was found", "")
+		return
+	}
+		// taken exactly when written >= target
+		var badA, badB, badC *Ctx
+		nA := 0
+		for _, cx := range exitCtxs(runs.fault) {
+			if cx.Ghosts["wcur:motion"] == 1 {
+				out, present := cx.Dec[roles.StopLabel]
+				if !present {
+					if badC == nil {
+						badC = cx
+					}
+					continue
+				}
+				nA++
+				rel := relationOn(roles.StopLabel, roles.Written, out)
+				stopped := cx.Ghosts["stop:motion"] >= 1
+				switch rel {
+				case ">=":
+					if !stopped && badA == nil {
+						badA = cx
+					}
+				case "<":
+					if stopped && badB == nil {
+						badB = cx
+					}
+				default:
+					if badA == nil {
+						badA = cx
+					}
+				}
+			}
+		}
+		cl, _ := parseCmpLabel(roles.StopLabel)
+		detail := fmt.Sprintf("decision '%s' in %d exit contexts: stop iff written >= target", cl.Raw, nA)
+		switch {
+		case badA != nil:
+			r.Fail(rule, "stop taken exactly when written >= target", "-", "the comparison is not 'written >= target' (non-strict) or the stop is skipped when it holds: "+describeCtx(badA), badA.Trace)
+		case badB != nil:
+			r.Fail(rule, "stop taken exactly when written >= target", "-", "the recording is stopped although written < target: "+describeCtx(badB), badB.Trace)
+		case badC != nil:
+			r.Fail(rule, "stop taken exactly when written >= target", "-", "a frame call writes a frame to the recording without testing the stop target: "+describeCtx(badC), badC.Trace)
+		default:
+			r.Check(nA > 0, rule, "stop taken exactly when written >= target", "-", detail)
+		}
+	}
